@@ -686,8 +686,8 @@ def exOps : List (Block × Addr × Cw1Subkeys.Msg) :=
    (blk50, "admin", .decreaseAllowance ⟨true, "k"⟩ ("ua", 2) none),
    (blk50, "k", .execute [.bankSend "x" [("ua", 7)]]),
    (blk50, "k", .execute [.bankSend "x" [("ua", 1)]])]
-example : (grun (ghost0 ⟨⟨["admin"], true⟩, [], []⟩) exOps).spent "k" "ua" = 11
-    ∧ (grun (ghost0 ⟨⟨["admin"], true⟩, [], []⟩) exOps).granted "k" "ua" = 13
-    ∧ held (grun (ghost0 ⟨⟨["admin"], true⟩, [], []⟩) exOps).st "k" "ua" = 0 := by decide
+example : (grun (ghost0 { cfg := ⟨["admin"], true⟩, allowances := [], permissions := [] }) exOps).spent "k" "ua" = 11
+    ∧ (grun (ghost0 { cfg := ⟨["admin"], true⟩, allowances := [], permissions := [] }) exOps).granted "k" "ua" = 13
+    ∧ held (grun (ghost0 { cfg := ⟨["admin"], true⟩, allowances := [], permissions := [] }) exOps).st "k" "ua" = 0 := by decide
 
 end CwPlus.Props.C08
